@@ -83,6 +83,15 @@ def catalogue(gen: int):
             (acs.AcStatusMessage([acs.AcStatusData(0, acs.AcPowerState.ON, acs.AcMode.COOL,
                                                    acs.AcFanSpeed.LOW, False, False, 22,
                                                    math.nan, 0)]), ENC_BADWRITE),
+            # further kinds of unencodable messages (each raises in a different encoder, some in the nested
+            # 0x1F sub-encoder): group number / damper value that do not fit a byte, ids outside the request range
+            (gc.GroupControlMessage(300, gc.GroupPowerControl.TURN_OFF, gc.GroupControlMethod.UNCHANGED, None), ENC_BADWRITE),
+            (gc.GroupControlMessage(1, gc.GroupPowerControl.UNCHANGED, gc.GroupControlMethod.DAMPER,
+                                    gc.GroupDamperControl(300)), ENC_BADWRITE),
+            (ext.ExtendedMessage(abil.AcAbilityRequest(300)), ENC_BADWRITE),
+            (ext.ExtendedMessage(__import__("pyairtouch.at4.comms.x1FFF12_group_names", fromlist=["x"]).GroupNamesRequest(300)), ENC_BADWRITE),
+            # a body longer than the 16-bit length field: fails when the HEADER is packed
+            (ext.ExtendedMessage(ver.ConsoleVersionMessage(False, ["x" * 70000])), ENC_BADWRITE),
         ]
     import pyairtouch.at5.comms.x1F_ext as ext
     import pyairtouch.at5.comms.x1FFF30_console_ver as ver
@@ -117,6 +126,12 @@ def catalogue(gen: int):
         (cs.ControlStatusMessage(zc.ZoneControlMessage([zc.ZoneControlData(
             1, zc.ZonePowerControl.UNCHANGED, zc.ZoneSetPointControl(math.nan))])),
          ENC_BADWRITE),
+        (cs.ControlStatusMessage(zc.ZoneControlMessage([zc.ZoneControlData(300, zc.ZonePowerControl.TURN_OFF, None)])), ENC_BADWRITE),
+        (cs.ControlStatusMessage(zc.ZoneControlMessage([zc.ZoneControlData(
+            1, zc.ZonePowerControl.UNCHANGED, zc.ZoneDamperControl(300))])), ENC_BADWRITE),
+        (ext.ExtendedMessage(abil.AcAbilityRequest(300)), ENC_BADWRITE),
+        (ext.ExtendedMessage(__import__("pyairtouch.at5.comms.x1FFF13_zone_names", fromlist=["x"]).ZoneNamesRequest(300)), ENC_BADWRITE),
+        (ext.ExtendedMessage(ver.ConsoleVersionMessage(False, ["x" * 70000])), ENC_BADWRITE),
     ]
 
 
